@@ -103,6 +103,23 @@ STRENGTHENED = {
     "C18_r4m2": "first missed by C18 (keyword values were scalars): NumPy / JAX arrays and tuples as registered and override values",
     "C19_r4m1": "first run inconclusive (the changed helper broke an environment that uses it, a harness exception) - counted as a miss: elements in wider dtypes than the tree's leaves are now written directly",
     "C19_r4m2": "first missed by C19 (no signed zeros): 0.0 vs -0.0 pairs on NumPy and JAX leaves",
+    "C01_r5m1": "first missed by C01 quick (food levels above the agent levels need the high-level LBF generator settings): LBF configurations with max_agent_level 3 / 4 and co-operative foods (ml3, ml4coop)",
+    "C02_r5m1": "first missed by C02 (steps outside jit were short chains on traced-style states; the FlatPack episode has to reach its last step in plain Python execution): steps under jax.disable_jit() and eager chains of 6 / 12 steps that run to the end of short episodes",
+    "C02_r5m2": "first missed by C02 (argument snapshots were taken around jitted and op-by-op eager calls, where .at[].set never writes in place): the same snapshots around steps executed under jax.disable_jit() - this also exposed a real defect in BinPack.step (repaired, repo 52385967)",
+    "C04_r5m2": "first missed by C04 quick (mask from the previous floor only differs when a neighbour has just moved away or in): 'convoy' workload - robots driving nose to tail along the aisles",
+    "C05_r5m1": "first missed by C05 quick (a masked FORWARD into a cell that its occupant leaves in the same step): the same 'convoy' workload as probe base, all partners acting",
+    "C06_r5m2": "first missed by C06 (every Knapsack generator used the environment's nominal budget): harness generator with per-instance budgets (var12b3)",
+    "C08_r5m2": "first missed by C08 (every environment got its own reward object): one reward object shared by two environments of different size, the sibling traced first",
+    "C11_r5m1": "first missed by C11 (all limits were even / round numbers; the changed comparison is off only for some odd limits): odd limits 41 / 47 / 55 / 61 / 97",
+    "C12_r5m2": "first missed by C12 (no grid-observer LBF run in which an agent steps on the cell of an eaten food): freed-cell stepping in the LBF completing workload + a grid-observer configuration",
+    "C13_r5m1": "closed before the first run after reading the change summary (solved puzzles were not reached under AutoReset): policy-complete shards for SlidingTilePuzzle, RubiksCube, Maze, Cleaner",
+    "C13_r5m2": "as C13_r5m1 (RubiksCube n2s3L7 solved by the model's inverse word)",
+    "C14_r5m2": "first missed by C14 (render was handed device arrays only): host-side render of states whose leaves are NumPy arrays",
+    "C15_r5m2": "first missed by C15 (one adapter alive at a time): several adapters built on the same environment object and used alternately",
+    "C16_r5m2": "first missed by C16 (nested values had exactly the spec's fields or were of another type): values with a superset / subset of the fields",
+    "C17_r5m1": "first missed by C17 (RubiksCube ran with the shipped sparse reward only): dense fraction-in-place and move-penalty reward functions; a quarter turn away from the goal and back must give MID then LAST",
+    "C19_r5m1": "first missed by C19 (every tree of a batch had its own leaf objects): the same tree repeated and trees sharing some leaf objects (what state.replace gives), generated and real states",
+    "C19_r5m2": "first missed by C19 (compared dicts were built in the same key order): identical / one-element-different nests whose dicts are built in the reverse insertion order",
     "C19_m2": "caught by the symmetric-comparison clause; the variant 'other dtype and a value the cast would destroy' was added to make the hit direct",
 }
 rows = []
